@@ -118,8 +118,189 @@ func c07(tier string) []*explore.Scenario {
 	for j := 0; j <= 2; j++ {
 		out = append(out, c07Deadline(j, bound, false), c07Deadline(j, bound, true))
 	}
+	// another call's responses sit unread (its caller is slow) when the cancellation lands
+	for m := 1; m <= 4; m++ {
+		out = append(out, c07OtherUnread(m, bound))
+	}
+	// calls started on a context that is already over
+	for _, kind := range []string{"Unary", "Bidi", "SStream", "CStream"} {
+		for _, how := range []string{"cancelled", "expired"} {
+			for _, ctxRace := range []bool{false, true} {
+				out = append(out, c07PreDone(kind, how, ctxRace, bound))
+			}
+		}
+	}
 	out = append(out, apiSeqs("C07", tier)...)
 	return out
+}
+
+// c07OtherUnread: stream B's handler has sent m responses that B's caller has
+// not read yet (from 3 on, the connection's read loop is parked delivering to
+// B); stream A is cancelled in that state. A's handler context must become
+// done and A's reset must reach the wire without B's caller doing anything;
+// afterwards B's caller reads everything.
+func c07OtherUnread(m, bound int) *explore.Scenario {
+	fam := "C07/other-unread"
+	return &explore.Scenario{
+		Name:   fmt.Sprintf("C07/other-unread/m=%d", m),
+		Family: fam, Prop: "C07", Bound: bound,
+		Run: func() {
+			w := env.NewWorld()
+			d := env.NewDirect(w, env.DirectOpts{Pipe: env.PipeOpts{Cap: 64}})
+			vsched.Settle()
+			vsched.Explore(true)
+			ra := w.Rec("a", "Bidi")
+			var actx context.Context
+			w.Handlers["a"] = func(r *env.Rec, ss grpc.ServerStream) error {
+				actx = ss.Context()
+				<-ss.Context().Done()
+				return status.FromContextError(ss.Context().Err()).Err()
+			}
+			rb := w.Rec("b", "SStream")
+			w.Handlers["b"] = env.HBurst(m)
+			ctx, cancel := context.WithCancel(context.Background())
+			defer cancel()
+			var csA, csB grpc.ClientStream
+			vsched.GoNamed("caller-a", func() { csA = w.Open(d.CC, ctx, ra) })
+			vsched.Quiesce()
+			vsched.GoNamed("caller-b", func() {
+				csB = w.Open(d.CC, context.Background(), rb)
+				if csB != nil {
+					env.CSend(rb, csB, "go")
+					env.CClose(rb, csB)
+				}
+			})
+			vsched.Quiesce() // B's responses are queued as far as they go; nobody reads them
+			if csA == nil || csB == nil {
+				vsched.Fail(fam+"|harness", "streams did not open: a=%v b=%v", ra.COpenErr, rb.COpenErr)
+				return
+			}
+			var aid uint64
+			for _, e := range d.Tap.Events {
+				if e.Dir == "a2b" && e.Rpc.Body == nil && e.Rpc.Trailer == nil && e.Rpc.Reset_ == nil && aid == 0 {
+					aid = e.Rpc.GetId()
+				}
+			}
+			var aerr error
+			adone := false
+			vsched.GoNamed("caller-a2", func() {
+				cancel()
+				aerr = csA.RecvMsg(new(env.Msg))
+				adone = true
+			})
+			vsched.Quiesce()
+			resetSeen := false
+			for _, e := range d.Tap.Events {
+				if e.Dir == "a2b" && e.Rpc.GetId() == aid && e.Rpc.Reset_ != nil {
+					resetSeen = true
+				}
+			}
+			vsched.Obs("m=%d: A recv done=%v err=%s reset=%v handler-ctx-done=%v", m, adone, env.ErrStr(aerr), resetSeen, actx != nil && actx.Err() != nil)
+			if !adone {
+				vsched.Fail(fam+"|recv-hang", "a receive on cancelled stream A is still blocked while stream B's caller has %d responses unread; threads: %s", m, threadList())
+			} else if status.Code(aerr) != codes.Canceled {
+				vsched.Fail(fam+"|status", "a receive on cancelled stream A returned %s", env.ErrStr(aerr))
+			}
+			if !resetSeen {
+				vsched.Fail(fam+"|no-reset", "stream A was cancelled while stream B's caller has %d responses unread: no reset for A reached the wire", m)
+			}
+			if ra.HStarts == 1 && (actx == nil || actx.Err() == nil) {
+				vsched.Fail(fam+"|handler-ctx-live", "stream A was cancelled while stream B's caller has %d responses unread: A's handler still has a live context", m)
+			}
+			// B's caller now reads: everything arrives
+			vsched.GoNamed("caller-b2", func() { env.CRecvAll(rb, csB); rb.CDone = true })
+			vsched.Quiesce()
+			if !rb.CDone || rb.CErr != io.EOF || len(rb.CRecv) != m {
+				vsched.Fail(fam+"|bystander", "stream B (bystander) did not complete: %s", rb.Summary())
+			}
+			finishDirect(d, w, true)
+		},
+	}
+}
+
+// c07PreDone: the call's context is already cancelled / past its deadline
+// when the call is made, on a transport that refuses writes on a done context
+// and on one where a done context merely competes; a healthy call follows.
+func c07PreDone(kind, how string, ctxRace bool, bound int) *explore.Scenario {
+	fam := "C07/predone"
+	return &explore.Scenario{
+		Name:   fmt.Sprintf("C07/predone/%s/%s/ctxrace=%v", kind, how, ctxRace),
+		Family: fam, Prop: "C07", Bound: bound,
+		Run: func() {
+			w := env.NewWorld()
+			d := env.NewDirect(w, env.DirectOpts{Pipe: env.PipeOpts{Cap: 64, CtxRace: ctxRace}})
+			vsched.Settle()
+			vsched.Explore(true)
+			ctx, cancel := context.WithCancel(context.Background())
+			if how == "expired" {
+				var c2 context.CancelFunc
+				ctx, c2 = context.WithDeadline(ctx, time.Now().Add(-time.Second))
+				defer c2()
+			} else {
+				cancel()
+			}
+			defer cancel()
+			want := codes.Canceled
+			if how == "expired" {
+				want = codes.DeadlineExceeded
+			}
+			r := w.Rec("s", kind)
+			var hctx context.Context
+			if kind == "Unary" {
+				// (a cancelled unary call is not signalled to the server: C14's recorded finding, not C07's subject)
+				w.Unaries["s"] = func(r *env.Rec, c context.Context, in string) (string, error) { return "r", nil }
+			} else {
+				w.Handlers["s"] = func(r *env.Rec, ss grpc.ServerStream) error {
+					hctx = ss.Context()
+					<-ss.Context().Done()
+					return status.FromContextError(ss.Context().Err()).Err()
+				}
+			}
+			done := false
+			var opErrs []string
+			vsched.GoNamed("caller-s", func() {
+				defer func() { done = true }()
+				if kind == "Unary" {
+					w.CallUnary(d.CC, ctx, r, "x")
+					return
+				}
+				cs := w.Open(d.CC, ctx, r)
+				if cs == nil {
+					return
+				}
+				// the open went through (the transport let it race): everything after it must fail
+				if err := cs.SendMsg(env.S("m")); err == nil {
+					opErrs = append(opErrs, "SendMsg succeeded")
+				} else if !isCtxStatus(err) && !isCtxErr(err) && err != io.EOF {
+					opErrs = append(opErrs, "SendMsg: "+env.ErrStr(err))
+				}
+				m := new(env.Msg)
+				if err := cs.RecvMsg(m); err == nil {
+					opErrs = append(opErrs, "RecvMsg succeeded")
+				} else {
+					r.CErr = err
+				}
+			})
+			vsched.Quiesce()
+			vsched.Obs("%s %s ctxrace=%v: done=%v err=%s hstarts=%d opErrs=%v", kind, how, ctxRace, done, env.ErrStr(r.CErr), r.HStarts, opErrs)
+			if !done {
+				vsched.Fail(fam+"|hang", "%s call on a context that is already %s never returned; threads: %s", kind, how, threadList())
+			} else if kind != "Unary" && status.Code(r.CErr) != want && !(r.CStream == nil && isCtxErr(r.CErr)) {
+				// (a failed open / unary call may report the context's own error; receives on an open stream report the status)
+				vsched.Fail(fam+"|status", "%s call on a context that is already %s ended with %s, want %v", kind, how, env.ErrStr(r.CErr), want)
+			}
+			for _, e := range opErrs {
+				vsched.Fail(fam+"|op-after-done", "%s call on a context that is already %s: %s", kind, how, e)
+			}
+			if kind != "Unary" && r.HStarts > 0 && (hctx == nil || hctx.Err() == nil) {
+				vsched.Fail(fam+"|handler-ctx-live", "%s call on a context that is already %s reached a handler whose context is still live", kind, how)
+			}
+			or := w.Rec("after", "Unary")
+			w.CallUnary(d.CC, context.Background(), or, "x")
+			checkUnary(or, "x", fam)
+			finishDirect(d, w, true)
+		},
+	}
 }
 
 func runOps(r *env.Rec, cs grpc.ClientStream, ops string, isCancelled func() bool, log *[]c07Op, n *int) {
